@@ -55,6 +55,10 @@ pub enum IntegDecl {
     /// the correct digest's base64 text with the case of its first letter toggled (still
     /// well-formed base64 of the right length, but other bytes)
     CaseToggled,
+    /// the correct hash under the writer's algorithm plus, under a WEAKER algorithm, the hash of
+    /// another value of the pool: the strongest algorithm decides (for the path and for every
+    /// verification), the weaker hash is noise
+    MultiWeakerOfOther,
 }
 
 /// Something another process does to the cache between a writer's last chunk and its commit.
